@@ -87,7 +87,7 @@ func runC09(c *Ctx) {
 
 	// exemptions: backtracking points that need no frame, with the reason.
 	exempt := map[string]string{
-		"(honnef.co/go/tools/pattern.Symbol).Match::match(m, fn.Name, name)": "the subject is a string (a type name); no compound pattern can bind a name against a string and then fail, so there is nothing to undo",
+		"(honnef.co/go/tools/pattern.Symbol).Match::sub-match-against-a-string": "the subject is a string (a type name); no compound pattern can bind a name against a string and then fail, so there is nothing to undo",
 	}
 
 	c.Rule("R9.1", func() {
@@ -121,6 +121,15 @@ func runC09(c *Ctx) {
 				}
 				points++
 				key := FuncKey(fn) + "::" + c.CallText(call.Pos())
+				// a sub-match whose subject is a string needs no frame: keyed by what it is, not by how it is spelled
+				if args := CallArgs(&call.Call); len(args) >= 3 {
+					subj := args[len(args)-1]
+					if mi, isMI := subj.(*ssa.MakeInterface); isMI {
+						if b, isB := mi.X.Type().Underlying().(*types.Basic); isB && b.Info()&types.IsString != 0 {
+							key = FuncKey(fn) + "::sub-match-against-a-string"
+						}
+					}
+				}
 				if why, ok := exempt[key]; ok {
 					c.CheckTrivial(key, call.Pos(), true, "backtracking point exempt from bracketing: %s", why)
 					continue
@@ -168,8 +177,8 @@ func runC09(c *Ctx) {
 				c.Check(key+"::frame-closed-on-success", call.Pos(), t == nil, "when the sub-match succeeds the frame must be merged (or popped) before returning; path: %s", PathString(fn, path))
 			}
 		}
-		if points < 3 {
-			c.Undecided("found %d backtracking points in package pattern, expected Or.Match, Not.Match and the alias loop of Symbol.Match", points)
+		if points < 2 {
+			c.Undecided("found %d backtracking points in package pattern, expected at least Or.Match and the alias loop of Symbol.Match (and Not.Match unless its attempt lives in a helper)", points)
 		}
 	})
 
@@ -204,14 +213,49 @@ func runC09(c *Ctx) {
 			}
 			Instrs(fn, false, func(in ssa.Instruction) {
 				al, ok := in.(*ssa.Alloc)
-				if !ok || al.Comment != "complit" || !strings.HasSuffix(al.Type().String(), "pattern.Binding") {
+				if !ok || !strings.HasSuffix(al.Type().String(), "pattern.Binding") {
 					return
 				}
-				hasIdx := false
-				for _, r := range *al.Referrers() {
-					if fa, ok := r.(*ssa.FieldAddr); ok && IsFieldOf("Binding", "idx")(fa) {
-						hasIdx = true
+				// a Binding value that is built here: a literal, or a variable whose fields are assigned
+				built, hasIdx := al.Comment == "complit", false
+				var check func(v ssa.Value, depth int)
+				check = func(v ssa.Value, depth int) {
+					refs := v.Referrers()
+					if refs == nil || depth > 2 {
+						return
 					}
+					for _, r := range *refs {
+						switch r := r.(type) {
+						case *ssa.FieldAddr:
+							for _, rr := range *r.Referrers() {
+								if st, ok := rr.(*ssa.Store); ok && st.Addr == ssa.Value(r) {
+									built = true
+									if IsFieldOf("Binding", "idx")(r) {
+										hasIdx = true
+									}
+								}
+							}
+						case *ssa.Store:
+							// the literal is copied into a variable whose idx is set afterwards: b = Binding{…}; b.idx = …
+							if u, ok := r.Val.(*ssa.UnOp); ok && u.X == v && r.Addr != v {
+								if dst, ok := r.Addr.(*ssa.Alloc); ok {
+									check(dst, depth+1)
+								}
+							}
+						case *ssa.UnOp:
+							for _, rr := range *r.Referrers() {
+								if st, ok := rr.(*ssa.Store); ok && st.Val == ssa.Value(r) {
+									if dst, ok := st.Addr.(*ssa.Alloc); ok && dst != al {
+										check(dst, depth+1)
+									}
+								}
+							}
+						}
+					}
+				}
+				check(al, 0)
+				if !built {
+					return
 				}
 				c.Check(FuncKey(fn)+"::Binding-literal-sets-idx", al.Pos(), hasIdx, "a Binding built by the parser must get its bit index")
 			})
@@ -255,16 +299,12 @@ func runC09(c *Ctx) {
 			case *ssa.Call:
 				if IsCallTo(in, "builtin.delete") {
 					if DerivesLocal(in.Call.Args[0], IsFieldOf("Matcher", "State")) && DerivesLocal(in.Call.Args[1], IsFieldOf("Matcher", "bindingsMapping")) {
-						guard := CondEdges(pop, func(cond ssa.Value) (bool, bool) {
-							bo, ok := cond.(*ssa.BinOp)
-							if !ok || bo.Op != token.NEQ {
-								return false, false
-							}
-							return DerivesLocal(bo.X, func(v ssa.Value) bool {
-								a, ok := v.(*ssa.BinOp)
+						guard := IntCmpConstEdges(pop, func(v ssa.Value) bool {
+							return DerivesLocal(v, func(x ssa.Value) bool {
+								a, ok := x.(*ssa.BinOp)
 								return ok && a.Op == token.AND && (DerivesLocal(a.X, IsFieldOf("Matcher", "setBindings")) || DerivesLocal(a.Y, IsFieldOf("Matcher", "setBindings")))
-							}), true
-						})
+							})
+						}, true, func(lo, hi int64) bool { return lo >= 1 })
 						if ok, _ := MustPassEdges(pop, in, guard); ok {
 							delOK = true
 						}
@@ -309,19 +349,21 @@ func runC09(c *Ctx) {
 
 		// Parse: Pattern.Bindings[idx] = name for (name, idx) in p.bindings
 		filled := false
-		Instrs(parse, true, func(in ssa.Instruction) {
-			st, ok := in.(*ssa.Store)
-			if !ok {
-				return
-			}
-			ia, ok := st.Addr.(*ssa.IndexAddr)
-			if !ok {
-				return
-			}
-			if DerivesLocal(ia.Index, IsFieldOf("Parser", "bindings")) && DerivesLocal(st.Val, IsFieldOf("Parser", "bindings")) {
-				filled = true
-			}
-		})
+		for _, f := range DeepFuncs(parse, 2) {
+			Instrs(f, false, func(in ssa.Instruction) {
+				st, ok := in.(*ssa.Store)
+				if !ok {
+					return
+				}
+				ia, ok := st.Addr.(*ssa.IndexAddr)
+				if !ok {
+					return
+				}
+				if DerivesLocal(ia.Index, IsFieldOf("Parser", "bindings")) && DerivesLocal(st.Val, IsFieldOf("Parser", "bindings")) {
+					filled = true
+				}
+			})
+		}
 		c.Check(FuncKey(parse)+"::bindings-table-by-index", parse.Pos(), filled, "Parse fills Pattern.Bindings[idx] = name from the same table bindingIndex allocates from")
 	})
 
@@ -509,9 +551,45 @@ func trueReturnReachable(fn *ssa.Function, edges map[Edge]bool, knownFalse ssa.V
 				return true
 			}
 		}
+		// a flag set on the way here: `ok = false; break` … `if !ok { return nil, false }`. If the block's
+		// condition is a φ of this block whose value on the edge we came in by is a constant, only the
+		// corresponding successor is taken.
+		if len(s.blk.Instrs) > 0 {
+			if iff, ok := s.blk.Instrs[len(s.blk.Instrs)-1].(*ssa.If); ok {
+				cond, neg := StripNot(iff.Cond)
+				if phi, ok := cond.(*ssa.Phi); ok && phi.Block() == s.blk {
+					for i, p := range s.blk.Preds {
+						if p != s.pred {
+							continue
+						}
+						var known *bool
+						if k, ok := phi.Edges[i].(*ssa.Const); ok && k.Value != nil && (k.Value.String() == "true" || k.Value.String() == "false") {
+							b := k.Value.String() == "true"
+							known = &b
+						} else if phi.Edges[i] == knownFalse {
+							b := false
+							known = &b
+						}
+						if known != nil {
+							truth := *known
+							if neg {
+								truth = !truth
+							}
+							succ := s.blk.Succs[1]
+							if truth {
+								succ = s.blk.Succs[0]
+							}
+							queue = append(queue, st{succ, s.blk})
+							goto next
+						}
+					}
+				}
+			}
+		}
 		for _, succ := range s.blk.Succs {
 			queue = append(queue, st{succ, s.blk})
 		}
+	next:
 	}
 	return false
 }
